@@ -143,7 +143,10 @@ ObsGssvx(r, n, c) ==
                     /\ r.permr = 1
                     /\ (r.sym = 1 /\ r.u1000 = 0 /\ c.fact # "FACTORED" => r.prpc = 1)   \* C16: every pivot is the original diagonal entry
                     /\ (r.nrhs > 0 /\ r.cond >= 0 /\ r.cond < 100000000 =>
-                           /\ r.omega >= 0 /\ r.omega <= OmegaMax        \* C07: solves the ORIGINAL system
+                           /\ r.omega >= 0
+                           /\ (r.refok = 1 => r.omega <= OmegaMax)       \* C07: solves the ORIGINAL system to refined (componentwise) accuracy under the
+                                                                         \* property's premise cond * growth * n * eps <= 1e-3, cond = Skeel's cond(M) * sigma(M, x)
+                           /\ r.omegan >= 0 /\ r.omegan <= 1000000        \* ... and in any case to 1000 (n+1) u in the mixed norm (a wrong back-transformation gives O(1))
                            /\ r.berrdev <= 20000                          \* C13: berr truthful
                            /\ r.ferrok <= 1000                            \* C13: ferr * slack dominates
                            /\ r.rclo <= 1100 /\ r.rchi <= 1100            \* C12: sandwich
